@@ -141,6 +141,7 @@ static void Handle(const json& c, vh::Report& r) {
     else if (o == "Track") { semantic::TrackingFlags fl{}; fl.allowEdit = op["b"].get<bool>(); form->Mods().Track(u, fl); }
     else if (o == "StopTracking") form->Mods().StopTracking(u);
     else if (o == "SaveLoad") { form = LoadForm(Save(*form)); }
+    else if (o == "DeleteDuplicates") { (void)form->Ops().DeleteDuplicates(); renames = true; }
     if (On("C09")) {
       ++r.checks;
       if (refusable && !result) {
@@ -226,8 +227,109 @@ static void Handle(const json& c, vh::Report& r) {
   if ((r.cases % 9973) == 7) r.Sample(c);
 }
 
+// ------------------------------------------------------------------ recording (direction B): long random histories
+#include <random>
+static json TLeaf(const char* id, const std::string& name) { return { {"id", id}, {"s", name}, {"n", 0}, {"ix", json::array()}, {"ch", json::array()} }; }
+static json TNode(const char* id, json ch) { return { {"id", id}, {"s", ""}, {"n", 0}, {"ix", json::array()}, {"ch", std::move(ch)} }; }
+static const json kNoDef = { {"id", "NODEF"}, {"s", ""}, {"n", 0}, {"ix", json::array()}, {"ch", json::array()} };
+struct Def { json tree; std::string text; };
+// definition templates over two names (the specification's tree and its MATH text)
+static Def MakeDef(int k, const std::string& n, const std::string& m) {
+  const json N = TLeaf("GLOBAL", n), M = TLeaf("GLOBAL", m), a = TLeaf("LOCAL", "a");
+  switch (k) {
+  case 0: return { kNoDef, "" };
+  case 1: return { N, n };
+  case 2: return { TNode("UNION", { N, M }), n + "∪" + m };
+  case 3: return { TNode("SET_MINUS", { N, M }), n + "\\" + m };
+  case 4: return { TNode("BOOLEAN", { TNode("DECART", { N, M }) }), "ℬ(" + n + "×" + m + ")" };
+  case 5: return { TNode("EQUAL", { N, M }), n + "=" + m };
+  case 6: return { TNode("FUNCDEF", { TNode("ARGS", { TNode("ARG", { a, TNode("BOOLEAN", { N }) }) }), TNode("UNION", { a, M }) }), "[a∈ℬ(" + n + ")] a∪" + m };
+  case 7: { json c = TNode("CALL", { N }); c["s"] = m; return { c, m + "[" + n + "]" }; }
+  case 8: return { TNode("BAD", { N }), n + " ∪" };
+  default: return { TNode("UNION", { N, TNode("DECART", { N, M }) }), n + "∪(" + n + "×" + m + ")" };
+  }
+}
+static json ObsOf(const RSForm& f) {
+  json items = json::array(), order = json::array();
+  for (const auto uid : f.List()) { order.push_back(uid);
+    const auto& rs = f.GetRS(uid); const auto& p = f.GetParse(uid);
+    std::set<int> deps; for (auto d : f.RSLang().Graph().InputsFor(uid)) deps.insert(static_cast<int>(d));
+    json args = json::array(); if (p.arguments.has_value()) for (auto& a : *p.arguments) args.push_back({ {"name", a.name}, {"type", AsciiType(a.type.ToString())} });
+    items.push_back({ {"uid", uid}, {"alias", rs.alias}, {"kind", KindName(rs.type)}, {"tracked", f.Mods().IsTracking(uid)},
+      {"conv", rs.convention}, {"term", f.GetText(uid).term.Text().Raw()}, {"text", f.GetText(uid).definition.Raw()},
+      {"ok", p.status == semantic::ParsingStatus::VERIFIED},
+      {"type", p.exprType.has_value() ? (std::holds_alternative<rslang::LogicT>(*p.exprType) ? std::string("LOGIC") : AsciiType(std::get<rslang::Typification>(*p.exprType).ToString())) : std::string{}},
+      {"args", args}, {"deps", deps} }); }
+  // clause (ii) of C07 / C10: everything the schema reports equals what a copy reloaded from the saved document reports
+  bool same = true;
+  try { auto copy = LoadForm(Save(f)); json a = Project(f), b = Project(*copy);
+    if (f.Texts().TermGraph().HasLoop()) for (auto* side : { &a, &b }) for (auto& it : (*side)["items"]) { it.erase("termStr"); it.erase("textStr"); }
+    same = a == b; } catch (const std::exception&) { same = false; }
+  return { {"order", order}, {"items", items}, {"sameAsReloaded", same} };
+}
+static json RandAtoms(std::mt19937& g, const char* const* names, int nn) {
+  json q = json::array(); const int n = static_cast<int>(g() % 4);
+  for (int i = 0; i < n; ++i) { if (g() % 2) q.push_back({ {"r", true}, {"s", names[g() % nn]} }); else q.push_back({ {"r", false}, {"s", (g() % 2) ? "word" : names[g() % nn]} }); }
+  return q;
+}
+static int Record(const vh::Args& args) {
+  const long traces = args.num("record", 5), steps = args.num("steps", 100); const int maxCst = static_cast<int>(args.num("cst", 10));
+  std::mt19937 g(static_cast<unsigned>(args.num("seed", 1)));
+  std::ofstream out(args.get("trace")); vh::Report rep; long events = 0;
+  static const char* kinds[] = { "base", "constant", "structured", "term", "term", "term", "function", "axiom" };
+  static const char* names[] = { "X1", "X2", "D1", "D2", "D3", "F1", "S1", "C1", "X9", "A1" };
+  static const char* aliases[] = { "X1", "X2", "X3", "D1", "D2", "D3", "D4", "F1", "F2", "S1", "C1", "A1", "Q7", "D01" };
+  const int policy = static_cast<int>(args.num("seed", 1) % 3);       // identifier order: ascending / descending / scattered
+  for (long t = 0; t < traces; ++t) {
+    out << json{ {"e", "Reset"} }.dump() << std::endl; ++events;
+    auto form = std::make_unique<RSForm>(); int counter = 0;
+    auto fresh = [&]() { ++counter; return static_cast<EntityUID>(policy == 0 ? counter : policy == 1 ? 1000 - counter : (counter * 37) % 997 + 1); };
+    auto pick = [&]() -> EntityUID { std::vector<EntityUID> v; for (auto u : form->List()) v.push_back(u); if (v.empty() || g() % 12 == 0) return static_cast<EntityUID>(5000); return v[g() % v.size()]; };
+    for (long st = 0; st < steps; ++st) {
+      json ev; const int w = static_cast<int>(g() % 118);   // 97..117: text operations
+      const int n = static_cast<int>(form->Core().size());
+      g_uids.clear();
+      if (w < 22 && n < maxCst) { const std::string k = kinds[g() % 8]; Def d = MakeDef(k == std::string("base") || k == std::string("constant") ? (g() % 6 ? 0 : 1) : static_cast<int>(g() % 10), names[g() % 10], names[g() % 10]);
+        const auto f = fresh(); g_uids.push_back(f); const auto got = form->Emplace(KindOf(k), d.text);
+        ev = { {"e", "Emplace"}, {"k", k}, {"def", d.tree}, {"fresh", got} }; }
+      else if (w < 40) { const auto u = pick(); Def d = MakeDef(static_cast<int>(g() % 10), names[g() % 10], names[g() % 10]);
+        const bool r = form->SetExpressionFor(u, d.text); ev = { {"e", "SetExpression"}, {"u", u}, {"def", d.tree}, {"res", r} }; }
+      else if (w < 52) { const auto u = pick(); const bool r = form->Erase(u); ev = { {"e", "Erase"}, {"u", u}, {"res", r} }; }
+      else if (w < 68) { const auto u = pick(); const std::string a = aliases[g() % 14]; const bool sub = g() % 2; const bool r = form->SetAliasFor(u, a, sub);
+        ev = { {"e", "SetAlias"}, {"u", u}, {"a", a}, {"b", sub}, {"res", r} }; }
+      else if (w < 78) { const auto u = pick(); const int p = 1 + static_cast<int>(g() % (n + 1)); auto it = form->List().begin(); for (int k = 1; k < p && it != form->List().end(); ++k) ++it;
+        const bool r = form->MoveBefore(u, it); ev = { {"e", "MoveBefore"}, {"u", u}, {"p", p}, {"res", r} }; }
+      else if (w < 82) { form->ResetAliases(); ev = { {"e", "ResetAliases"} }; }
+      else if (w < 88) { const auto u = pick(); semantic::TrackingFlags fl{}; fl.allowEdit = g() % 2; form->Mods().Track(u, fl); ev = { {"e", "Track"}, {"u", u}, {"b", fl.allowEdit} }; }
+      else if (w < 92) { const auto u = pick(); form->Mods().StopTracking(u); ev = { {"e", "StopTracking"}, {"u", u} }; }
+      else if (w < 96 && n < maxCst) { ConceptRecord rec; rec.uid = g() % 3 ? pick() : fresh(); rec.alias = aliases[g() % 14]; const std::string k = kinds[g() % 8]; rec.type = KindOf(k);
+        Def d = MakeDef(rec.type == CstType::base || rec.type == CstType::constant ? 0 : static_cast<int>(g() % 10), rec.alias, names[g() % 10]); rec.rs = d.text;
+        const auto f = fresh(); g_uids.push_back(f); const auto got = form->InsertCopy(rec);
+        ev = { {"e", "InsertCopy"}, {"uid", rec.uid}, {"a", rec.alias}, {"k", k}, {"def", d.tree}, {"fresh", got} }; }
+      else if (w < 97) { if (g() % 2) { form = LoadForm(Save(*form)); ev = { {"e", "SaveLoad"} }; } else { (void)form->Ops().DeleteDuplicates(); ev = { {"e", "DeleteDuplicates"} }; } }
+      else { const auto u = pick(); const json q = RandAtoms(g, names, 10); const int which = static_cast<int>(g() % 3);
+        if (which == 0) {
+          // terms may reference base sets only, and base sets get plain-word terms: term references stay acyclic
+          // (cyclic term references have no stable resolution, see known finding K2)
+          json tq = json::array(); const bool isBase = form->Core().Contains(u) && semantic::IsBaseSet(form->GetRS(u).type);
+          for (auto& a : q) { if (isBase) tq.push_back({ {"r", false}, {"s", a["s"]} }); else if (a["r"].get<bool>()) tq.push_back({ {"r", true}, {"s", (g() % 2) ? "X1" : "X2"} }); else tq.push_back(a); }
+          const bool r = form->SetTermFor(u, Atoms(tq)); ev = { {"e", "SetTerm"}, {"u", u}, {"q", tq}, {"res", r} }; }
+        else if (which == 1) { const bool r = form->SetDefinitionFor(u, Atoms(q)); ev = { {"e", "SetText"}, {"u", u}, {"q", q}, {"res", r} }; }
+        else { json wds = json::array(); for (auto& a : q) wds.push_back(a["s"]); const bool r = form->SetConventionFor(u, Words(wds)); ev = { {"e", "SetConvention"}, {"u", u}, {"w", wds}, {"res", r} }; } }
+      ev["obs"] = ObsOf(*form);
+      ev["obs"]["convs"] = json::array(); 
+      out << ev.dump() << std::endl; ++events;
+    }
+    ++rep.cases;
+  }
+  rep.counters["events"] = events; rep.counters["traces"] = traces;
+  rep.Write(args.get("out"));
+  return 0;
+}
+
 int main(int argc, char** argv) {
   vh::Args args(argc, argv);
+  if (args.has("record")) { InstallHook(); return vh::RunRecorder(args.get("trace"), args.get("out"), [&]() { return Record(args); }, 240); }
   { std::stringstream ss(args.get("props")); std::string p; while (std::getline(ss, p, ',')) if (!p.empty()) g_props.insert(p); }
   InstallHook();
   vh::IsoOptions iso; iso.faultProperty = "C09"; iso.batch = 1000; iso.watchdogSeconds = 20;
